@@ -33,6 +33,7 @@ func isOuterSrcEqTarget(t *core.Term, role string) bool {
 
 func runC04(c *Ctx) {
 	R := c.R
+	checkFamilySeparation(c)
 	forEachMatcher(c, "R04", func(m *matcherCtx) {
 		for si, s := range m.sites {
 			if s.Ret == nil {
